@@ -246,3 +246,106 @@ Theorem b64dec_b64enc bs : bytes_ok bs -> b64dec (b64enc bs) = Some bs.
 Proof.
   intros H. unfold b64dec. rewrite filter_b64 by now apply b64enc_chars. now apply b64dec_q_enc.
 Qed.
+
+(** * field codecs *)
+Theorem dec_str_enc_str s : utf8_valid s = true -> dec_str (enc_str s) = Some s.
+Proof.
+  intros H. unfold dec_str, enc_str. cbn [N.eqb Pos.eqb]. rewrite rev_unit. cbn [N.eqb Pos.eqb].
+  rewrite rev_involutive. now apply unescape_escape.
+Qed.
+
+(** text that needs no escaping is read back as it is *)
+Lemma unescape_safe l : Forall b64_out l -> unescape l = Some l.
+Proof.
+  unfold unescape. induction 1 as [|c l Hc _ IH]; [reflexivity|].
+  assert (Hs : unesc_step (c :: l) = Some ([c], 1%nat)).
+  { unfold unesc_step. unfold b64_out in Hc.
+    assert (N.ltb c 32 = false) as -> by (apply N.ltb_ge; lia).
+    assert (N.eqb c 34 = false) as -> by (apply N.eqb_neq; lia).
+    assert (N.eqb c 92 = false) as -> by (apply N.eqb_neq; lia).
+    assert (N.ltb c 128 = true) as -> by (apply N.ltb_lt; lia). reflexivity. }
+  cbn [walk_opt]. rewrite Hs. cbn [pred]. now rewrite IH.
+Qed.
+
+Definition dec_bytes (v : list N) : option (option (list N)) :=
+  if is_null v then Some None
+  else match dec_str v with Some t => option_map Some (b64dec t) | None => None end.
+Theorem dec_bytes_enc_bytes p : bytes_ok (pl_bytes p) -> dec_bytes (enc_bytes p) = Some p.
+Proof.
+  intros H. destruct p as [b|]; [|reflexivity]. simpl in H.
+  unfold dec_bytes, enc_bytes. assert (is_null (34 :: b64enc b ++ [34]) = false) as -> by reflexivity.
+  unfold dec_str. cbn [N.eqb Pos.eqb]. rewrite rev_unit. cbn [N.eqb Pos.eqb]. rewrite rev_involutive.
+  rewrite unescape_safe by now apply b64enc_chars. now rewrite b64dec_b64enc.
+Qed.
+
+(** * the envelope *)
+Lemma dec_keys : dec_str k_dest = Some n_dest /\ dec_str k_uuid = Some n_uuid
+  /\ dec_str k_payload = Some n_payload /\ dec_str k_metadata = Some n_metadata.
+Proof. repeat split; vm_compute; reflexivity. Qed.
+
+Lemma is_null_enc_str s : is_null (enc_str s) = false.
+Proof. reflexivity. Qed.
+Lemma is_null_frame ms : is_null (frame_obj ms) = false.
+Proof. reflexivity. Qed.
+
+Lemma dec_meta_entries : forall l acc,
+  forallb (fun kv => utf8_valid (fst kv) && utf8_valid (snd kv)) l = true ->
+  fold_left dec_meta_entry (meta_members l) (Some acc)
+  = Some (fold_left (fun a kv => md_set a (fst kv) (snd kv)) l acc).
+Proof.
+  induction l as [|[k v] l IH]; intros acc H; [reflexivity|].
+  simpl in H. apply andb_true_iff in H as [Hkv Hl]. apply andb_true_iff in Hkv as [Hk Hv].
+  cbn [meta_members map fold_left fst snd]. unfold dec_meta_entry at 2. cbn [fst snd].
+  rewrite (dec_str_enc_str k Hk), is_null_enc_str, (dec_str_enc_str v Hv).
+  apply IH. exact Hl.
+Qed.
+
+(** what the decoder makes of the text the encoder wrote, given the member split of the (at most
+    two) objects in it *)
+Theorem jdec_jenc_env unframe e : envelope_ok e ->
+  unframe (frame_obj (env_members e)) = Some (env_members e) ->
+  (forall l, e_meta e = Some l -> unframe (frame_obj (meta_members l)) = Some (meta_members l)) ->
+  forall b, jenc_env e = Some b -> jdec_env unframe b = Some e.
+Proof.
+  intros (Hu & Hb & Hw) H1 H2 b [= <-]. unfold jdec_env. rewrite H1.
+  destruct e as [dest uu p md]. unfold envelope_utf8 in Hu. cbn [e_dest e_uuid e_payload e_meta] in *.
+  apply andb_true_iff in Hu as [Hu Hmd]. apply andb_true_iff in Hu as [Hd Huu].
+  destruct dec_keys as (K1 & K2 & K3 & K4).
+  unfold env_members. cbn [e_dest e_uuid e_payload e_meta fold_left].
+  (* destination_topic *)
+  unfold dec_member at 4. cbn [fst snd]. rewrite K1.
+  assert (fold_eqb n_dest n_dest = true) as -> by reflexivity.
+  rewrite is_null_enc_str, (dec_str_enc_str dest Hd). cbn [e_dest e_uuid e_payload e_meta].
+  (* uuid *)
+  unfold dec_member at 3. cbn [fst snd]. rewrite K2.
+  assert (fold_eqb n_uuid n_dest = false) as -> by reflexivity.
+  assert (fold_eqb n_uuid n_uuid = true) as -> by reflexivity.
+  rewrite is_null_enc_str, (dec_str_enc_str uu Huu). cbn [e_dest e_uuid e_payload e_meta].
+  (* payload *)
+  unfold dec_member at 2. cbn [fst snd]. rewrite K3.
+  assert (fold_eqb n_payload n_dest = false) as -> by reflexivity.
+  assert (fold_eqb n_payload n_uuid = false) as -> by reflexivity.
+  assert (fold_eqb n_payload n_payload = true) as -> by reflexivity.
+  pose proof (dec_bytes_enc_bytes p Hb) as Hp. unfold dec_bytes in Hp.
+  assert (Hpay : (if is_null (enc_bytes p) then Some (Env dest uu None None)
+                  else match dec_str (enc_bytes p) with
+                       | Some t => match b64dec t with Some bs => Some (Env dest uu (Some bs) None) | None => None end
+                       | None => None
+                       end) = Some (Env dest uu p None)).
+  { destruct (is_null (enc_bytes p)); [now inversion Hp|].
+    destruct (dec_str (enc_bytes p)) as [t|]; [|discriminate].
+    destruct (b64dec t) as [bs|]; [|discriminate]. simpl in Hp. now inversion Hp. }
+  cbn [e_dest e_uuid e_payload e_meta]. rewrite Hpay.
+  (* metadata *)
+  unfold dec_member. cbn [fst snd]. rewrite K4.
+  assert (fold_eqb n_metadata n_dest = false) as -> by reflexivity.
+  assert (fold_eqb n_metadata n_uuid = false) as -> by reflexivity.
+  assert (fold_eqb n_metadata n_payload = false) as -> by reflexivity.
+  assert (fold_eqb n_metadata n_metadata = true) as -> by reflexivity.
+  cbn [e_dest e_uuid e_payload e_meta].
+  destruct md as [l|]; [|reflexivity].
+  cbn [enc_meta]. rewrite is_null_frame, (H2 l eq_refl). cbn [md_entries].
+  rewrite (dec_meta_entries l [] Hmd).
+  change (fold_left (fun a kv => md_set a (fst kv) (snd kv)) l []) with (md_build l).
+  now rewrite (md_build_id l Hw).
+Qed.
